@@ -49,10 +49,10 @@ def run(func, jobs, procs=8, timeout=900.0):
             elif not p.is_alive():
                 out[i] = ("error", f"worker exited with code {p.exitcode} without a result")
                 done.append(i)
-            elif time.time() - t0 > timeout:
+            elif time.time() - t0 > (jobs[i].get("timeout", timeout) if isinstance(jobs[i], dict) else timeout):
                 _kill_tree(p.pid)
                 p.join(5)
-                out[i] = ("timeout", timeout)
+                out[i] = ("timeout", float(jobs[i].get("timeout", timeout)) if isinstance(jobs[i], dict) else timeout)
                 done.append(i)
         for i in done:
             live[i][1].close()
